@@ -18,7 +18,7 @@ META = {
                    "can swallow an exception (the three documented ZeroDivisionError->NaN guards are the only handlers allowed, and they "
                    "must catch exactly that); running tasks changes no manager state (definitions, indices, flags); set_value has no early "
                    "exit or memoisation between the write and the propagation, so repeating the assignment re-runs everything; a task that "
-                   "carries state across runs must not perform several fallible writes before committing it.",
+                   "carries state across runs must not perform several fallible writes before committing it. A context manager of the package entered on the update path returns None/False from __exit__; the documented zero-division guard covers the division only (operands evaluated before the try).",
     "decides": "exception transparency of the update path, absence of manager-state effects while running, retry re-runs everything",
     "not_decided": "the container state after every crash point of every graph",
     "assumptions": ["user containers / actions may raise anywhere; they do not catch-and-hide on behalf of the library"],
